@@ -308,6 +308,26 @@ def shiftRef (kr : Bool) (e : Edit) : Ref → Option Ref
     | some a, some b => some (.rows a b)
     | _, _ => none
 
+/-! #### what the code does with every index, deleted or not -/
+
+/-- indices at or after `num` move by `off` and are floored at 1: a total function. It agrees with
+`shiftIdx` wherever that is defined; an index inside a deleted block slides towards the block's
+upper neighbour instead of becoming `#REF!`. -/
+def slideIdx (num off : Int) (i : Nat) : Nat :=
+  if (i : Int) < num then i else (max 1 ((i : Int) + off)).toNat
+
+def slideCol (kr : Bool) (e : Edit) (c : ColEnd) : ColEnd :=
+  if e.dir = .cols ∧ moves kr c.abs then { c with n := slideIdx e.num e.off c.n } else c
+
+def slideRow (kr : Bool) (e : Edit) (r : RowEnd) : RowEnd :=
+  if e.dir = .rows ∧ moves kr r.abs then { r with n := slideIdx e.num e.off r.n } else r
+
+def slideRef (kr : Bool) (e : Edit) : Ref → Ref
+  | .cell c r => .cell (slideCol kr e c) (slideRow kr e r)
+  | .range c1 r1 c2 r2 => .range (slideCol kr e c1) (slideRow kr e r1) (slideCol kr e c2) (slideRow kr e r2)
+  | .cols c1 c2 => .cols (slideCol kr e c1) (slideCol kr e c2)
+  | .rows r1 r2 => .rows (slideRow kr e r1) (slideRow kr e r2)
+
 /-- the cells a reference denotes: positions `(col,row)` of the grid -/
 def denote : Ref → Nat × Nat → Prop
   | .cell c r => fun p => p.1 = c.n ∧ p.2 = r.n
@@ -399,6 +419,18 @@ def expectTv (sheet sheetN : Str) (kr : Bool) (e : Edit) (tv : Str) : Out × Str
     let (pfx, _) := splitSheet tv
     (.moved r, (match pfx with | some p => p ++ ['!'] | none => []) ++ render r)
   | o => (o, tv)
+
+/-- the token value the code produces whether or not an endpoint is deleted (`none`: leaves the grid) -/
+def expectSlide (sheet sheetN : Str) (kr : Bool) (e : Edit) (tv : Str) : Option Str :=
+  let (pfx, cell) := splitSheet tv
+  let target := match pfx with | some p => p | none => sheetN
+  if target = sheet then
+    match parseRef cell with
+    | none => some tv
+    | some r =>
+      let r' := slideRef kr e r
+      if inGrid r' then some ((match pfx with | some p => p ++ ['!'] | none => []) ++ render r') else none
+  else some tv
 
 end Spec
 
